@@ -398,3 +398,44 @@ func mulConst(c constant.Value, m int64) constant.Value {
 }
 
 var _ = big.NewInt
+
+// readMarkdownTable returns the first column of the table that follows the heading `heading`
+// and whose header row starts with `firstHeader`.
+func readMarkdownTable(file, heading, firstHeader string) ([]string, error) {
+	b, err := os.ReadFile(file)
+	if err != nil {
+		return nil, err
+	}
+	var out []string
+	in, started := false, false
+	for _, l := range strings.Split(string(b), "\n") {
+		if strings.HasPrefix(l, "#") {
+			if in && started {
+				break
+			}
+			in = strings.EqualFold(strings.TrimSpace(strings.TrimLeft(l, "#")), heading)
+			continue
+		}
+		if !in || !strings.Contains(l, "|") {
+			if in && started && strings.TrimSpace(l) == "" {
+				break
+			}
+			continue
+		}
+		cells := strings.Split(l, "|")
+		first := strings.TrimSpace(cells[0])
+		if first == "" && len(cells) > 1 {
+			first = strings.TrimSpace(cells[1])
+		}
+		if strings.EqualFold(first, firstHeader) || strings.HasPrefix(first, "---") {
+			started = true
+			continue
+		}
+		started = true
+		out = append(out, first)
+	}
+	if len(out) == 0 {
+		return nil, fmt.Errorf("no table with header %q under heading %q in %s", firstHeader, heading, file)
+	}
+	return out, nil
+}
